@@ -32,6 +32,8 @@ def gen_input(rng, maxlen=40):
     if k == 0:
         s = " ".join(rng.choice(WORDS) for _ in range(rng.range(1, 8)))
         inp = [ord(c) for c in s][:maxlen]
+        if rng.chance(0.4):
+            inp = capitalise(rng, inp)
     elif k == 1:
         inp = [rng.choice(POOL) for _ in range(rng.range(0, maxlen))]
     elif k == 2:
@@ -44,6 +46,37 @@ def gen_input(rng, maxlen=40):
     else:
         inp = [rng.range(1, 0xffff) for _ in range(rng.range(0, 12))]
     return inp
+
+
+def gen_typeform(rng, n):
+    """emphasis in runs (italic 1, underline 2, bold 4, computer braille 8, no_translate 0x10, no_contract 0x20), often
+    starting or ending inside a word - an emphasis that begins and ends inside a contracted group makes the raw
+    position map non-monotone"""
+    tf = [0] * n
+    if n == 0 or rng.chance(0.25):
+        return tf
+    i = 0
+    while i < n:
+        run = rng.range(1, 4)
+        v = rng.choice([0, 0, 0, 1, 1, 2, 4, 8, 0x10, 0x20, 1 | 4])
+        for k in range(i, min(n, i + run)):
+            tf[k] = v
+        i += run
+    return tf
+
+
+def capitalise(rng, inp):
+    """capital first letters / whole capital words on some words"""
+    out = list(inp)
+    start = True
+    mode = 0
+    for i, c in enumerate(out):
+        if start:
+            mode = rng.choice([0, 0, 1, 2])
+        if 97 <= c <= 122 and ((mode == 1 and start) or mode == 2):
+            out[i] = c - 32
+        start = c == 32
+    return out
 
 
 def gen_mode(rng):
